@@ -199,11 +199,7 @@ func BuildNode(n *ref.Node) parquet.Node {
 			node = parquet.Compressed(node, Codec(n.Codec))
 		}
 	case "group":
-		g := parquet.Group{}
-		for i := range n.Children {
-			g[n.Children[i].Name] = BuildNode(&n.Children[i])
-		}
-		node = g
+		node = buildGroup(n)
 	case "list":
 		node = parquet.List(BuildNode(&n.Children[0]))
 	case "map":
@@ -224,12 +220,50 @@ func BuildNode(n *ref.Node) parquet.Node {
 	return node
 }
 
+// orderedGroup is a group node whose fields keep a declared order (like the
+// schema of a Go struct or of an opened file); parquet.Group itself is a map
+// and always lists its fields sorted by name.
+type orderedGroup struct {
+	parquet.Group
+	names []string
+}
+
+func (g orderedGroup) Fields() []parquet.Field {
+	byName := map[string]parquet.Field{}
+	for _, f := range g.Group.Fields() {
+		byName[f.Name()] = f
+	}
+	out := make([]parquet.Field, len(g.names))
+	for i, n := range g.names {
+		out[i] = byName[n]
+	}
+	return out
+}
+
+func (g orderedGroup) String() string { return fmt.Sprint(g.names) }
+
+// buildGroup returns a parquet.Group when the children are declared in name
+// order and an orderedGroup otherwise, so the library sees the model's order.
+func buildGroup(n *ref.Node) parquet.Node {
+	g := parquet.Group{}
+	names := make([]string, len(n.Children))
+	sorted := true
+	for i := range n.Children {
+		names[i] = n.Children[i].Name
+		g[names[i]] = BuildNode(&n.Children[i])
+		if i > 0 && names[i-1] >= names[i] {
+			sorted = false
+		}
+	}
+	if sorted {
+		return g
+	}
+	return orderedGroup{Group: g, names: names}
+}
+
 // BuildSchema builds the parquet schema of a root group.
 func BuildSchema(root *ref.Node) *parquet.Schema {
-	g := parquet.Group{}
-	for i := range root.Children {
-		g[root.Children[i].Name] = BuildNode(&root.Children[i])
-	}
+	g := buildGroup(root)
 	name := root.Name
 	if name == "" {
 		name = "root"
